@@ -107,7 +107,7 @@ class C01(Spec):
             if not isinstance(doc, dict):
                 doc = {"type": "Link", "href": doc}
             ws = [rng.choice((80, 30, 7))]
-            if ctor in (0, 1):
+            if ctor in (0, 1, 2):
                 items.append(c06.itemx_case(doc, ctor, ws, [1, 2, 3]))
             else:
                 items.append(c06.item_case(doc, ctor if rng.random() < 0.7 else 5, ws, [1, 2]))
